@@ -1202,6 +1202,38 @@ func init() {
 			r.Exists("failed-share quotients in internal/progress", "-", "%d", n)
 		})
 	})
+	extra["C02"] = append(extra["C02"], func(c *core.Ctx, r *core.Report) {
+		rule(r, "C02.R10", "when triggering stops, whatever is still pending is superseded and accounted for: on every path of the pool's stop function the pending counter is swapped exactly once (a mode that queues work behind the backlog must not apply to the stop)", func() {
+			pf := findPending(c)
+			if pf == nil {
+				r.Undecided("anchor", "-", "pending counter not resolved")
+				return
+			}
+			n := 0
+			for _, fn := range c.AllFuncs {
+				if core.RelPkg(fn) != "internal/workers" || fn.Parent() != nil {
+					continue
+				}
+				// the stop function of a pool with a pending counter: it sets the pool's stop flag and reaches a supersede
+				setsStop := false
+				for _, op := range an.AtomicOps([]*ssa.Function{fn}) {
+					if op.Op == "Store" && an.IsNamed(op.Field.Type(), "sync/atomic", "Bool") {
+						if k, isK := op.Call.Common().Args[1].(*ssa.Const); isK && k.Value != nil && k.Value.String() == "true" {
+							setsStop = true
+						}
+					}
+				}
+				isSet := func(_ ssa.CallInstruction, t *ssa.Function) bool { return t != nil && pf.setFns[t] }
+				if !setsStop || len(an.FlatCalls(fn, flatDepth, isSet)) == 0 {
+					continue
+				}
+				n++
+				tot, ok := an.Total(an.PathCount(fn, an.CallWeight(isSet, flatDepth)), false)
+				r.Check(ok && tot.Lo == 1 && tot.Hi == 1, core.FuncName(fn)+"#supersedes", c.Pos(fn.Pos()), "the stop supersedes the pending work exactly once on every path", "on the stop path the pending counter is swapped "+tot.String()+" times (expected exactly once): work still pending when triggering stops is neither started nor reported dropped")
+			}
+			r.Floor("stop functions of pools with a pending counter", n, 1)
+		})
+	})
 	teardownCallers := func(prop, id string) {
 		extra[prop] = append(extra[prop], func(c *core.Ctx, r *core.Report) {
 			rule(r, id, "the handle's tearing-down phase begins only when its use ends: the function that switches the phase marker on is reached only through the teardown the constructor handed out, never called from another method while the body may still run", func() {
